@@ -53,6 +53,15 @@ pub fn main() {
         };
         let s = req["s"].as_str().unwrap_or("").to_string();
         let resp = match req["op"].as_str().unwrap_or("") {
+            // environment changes inside this process (histories over environments)
+            "setenv" => {
+                std::env::set_var(req["k"].as_str().unwrap_or("X"), req["v"].as_str().unwrap_or(""));
+                json!({"ok": null})
+            },
+            "unsetenv" => {
+                std::env::remove_var(req["k"].as_str().unwrap_or("X"));
+                json!({"ok": null})
+            },
             "expand" => res_path(catch(|| sys::expand(&s))),
             "expand_ext" => res_path(catch(|| std::path::Path::new(&s).expand())),
             "abs_mem" => {
